@@ -652,7 +652,7 @@ Ltac ck1 := callk semis_spec semis_ext.
 Ltac call_known ::= ck1.
 
 Lemma namelist_loop_ext p mx : G' k p -> pre p mx -> wpx (namelist_loop_def ts R) (nQ p) p mx.
-Proof. start. unfold namelist_loop_def. Time wp. Time Qed.
+Proof. start. unfold namelist_loop_def. wp. Qed.
 Ltac ck2 := first [ck1 | callk namelist_loop_spec namelist_loop_ext].
 Ltac call_known ::= ck2.
 
@@ -667,12 +667,12 @@ Ltac ck3 := first [ck2 | callk namelist_spec namelist_ext].
 Ltac call_known ::= ck3.
 
 Lemma explist_loop_ext p mx : G' k p -> pre p mx -> wpx (explist_loop_def ts R) (nQ p) p mx.
-Proof. start. unfold explist_loop_def. Time wp. Time Qed.
+Proof. start. unfold explist_loop_def. wp. Qed.
 Ltac ck6 := first [ck3 | callk explist_loop_spec explist_loop_ext].
 Ltac call_known ::= ck6.
 
 Lemma explist_ext p mx : G k p -> pre p mx -> wpx (explist_def ts R) (nQ p) p mx.
-Proof. start. unfold explist_def. Time wp. Time Qed.
+Proof. start. unfold explist_def. wp. Qed.
 Ltac ck7 := first [ck6 | callk explist_spec explist_ext].
 Ltac call_known ::= ck7.
 
@@ -712,22 +712,22 @@ Ltac ck5 := first [ck4 | callk funcname_spec funcname_ext].
 Ltac call_known ::= ck5.
 
 Lemma field_ext p mx : G k p -> pre p mx -> wpx (field_def ts R) (nQ p) p mx.
-Proof. start. unfold field_def. Time wp. Time Qed.
+Proof. start. unfold field_def. wp. Qed.
 Ltac ck8 := first [ck5 | callk field_spec field_ext].
 Ltac call_known ::= ck8.
 
 Lemma fields_loop_ext p mx : G' k p -> pre p mx -> wpx (fields_loop_def ts R) (nQ p) p mx.
-Proof. start. unfold fields_loop_def. Time wp. Time Qed.
+Proof. start. unfold fields_loop_def. wp. Qed.
 Ltac ck9 := first [ck8 | callk fields_loop_spec fields_loop_ext].
 Ltac call_known ::= ck9.
 
 Lemma tableconstructor_ext p mx : G' k p -> pre p mx -> wpx (tableconstructor_def ts R) (nQ p) p mx.
-Proof. start. unfold tableconstructor_def. Time wp. Time Qed.
+Proof. start. unfold tableconstructor_def. wp. Qed.
 Ltac ck10 := first [ck9 | callk tableconstructor_spec tableconstructor_ext].
 Ltac call_known ::= ck10.
 
 Lemma args_ext p mx : G' k p -> pre p mx -> wpx (args_def ts R) (nQ p) p mx.
-Proof. start. unfold args_def. Time wp. Time Qed.
+Proof. start. unfold args_def. wp. Qed.
 Ltac ck11 := first [ck10 | callk args_spec args_ext].
 Ltac call_known ::= ck11.
 
@@ -753,53 +753,53 @@ Ltac call_known ::= ck13.
 
 Lemma precur_ext first p mx : G' k p -> pre p mx -> wf p first -> is_hidden first = false ->
   wpx (precur_def ts R first) (nQ p) p mx.
-Proof. start. intros Hwf Hnh. unfold precur_def. Time wp. Time Qed.
+Proof. start. intros Hwf Hnh. unfold precur_def. wp. Qed.
 Ltac ck14 := first [ck13 | callk precur_spec precur_ext].
 Ltac call_known ::= ck14.
 
 Lemma prefixexp_ext p mx : G' k p -> pre p mx -> wpx (prefixexp_def ts R) (nQ p) p mx.
-Proof. start. unfold prefixexp_def. Time wp. Time Qed.
+Proof. start. unfold prefixexp_def. wp. Qed.
 Ltac ck15 := first [ck14 | callk prefixexp_spec prefixexp_ext].
 Ltac call_known ::= ck15.
 
 Lemma exp_term_ext p mx : G' k p -> pre p mx -> wpx (exp_term_def ts unops R) (nQ p) p mx.
-Proof. start. unfold exp_term_def. Time wp. Time Qed.
+Proof. start. unfold exp_term_def. wp. Qed.
 Ltac ck16 := first [ck15 | callk exp_term_spec exp_term_ext].
 Ltac call_known ::= ck16.
 
 Lemma binop_ext first p mx : G' k p -> pre p mx -> wf p first -> end_ok first p -> exp_shape first ->
   wpx (binop_def ts binops unops R first) (nQ p) p mx.
-Proof. start. intros Hwf Hend Hshape. unfold binop_def. Time wp. Time Qed.
+Proof. start. intros Hwf Hend Hshape. unfold binop_def. wp. Qed.
 Ltac ck17 := first [ck16 | callk binop_spec binop_ext].
 Ltac call_known ::= ck17.
 
 Lemma exp_ext p mx : G' k p -> pre p mx -> wpx (exp_def ts binops unops R) (nQ p) p mx.
-Proof. start. unfold exp_def. Time wp. Time Qed.
+Proof. start. unfold exp_def. wp. Qed.
 Ltac ck18 := first [ck17 | callk exp_spec exp_ext].
 Ltac call_known ::= ck18.
 
 Lemma var_ext p mx : G' k p -> pre p mx -> wpx (var_def ts R) (nQ p) p mx.
-Proof. start. unfold var_def. Time wp. Time Qed.
+Proof. start. unfold var_def. wp. Qed.
 Ltac ck19 := first [ck18 | callk var_spec var_ext].
 Ltac call_known ::= ck19.
 
 Lemma varlist_loop_ext p mx : G' k p -> pre p mx -> wpx (varlist_loop_def ts R) (nQ p) p mx.
-Proof. start. unfold varlist_loop_def. Time wp. Time Qed.
+Proof. start. unfold varlist_loop_def. wp. Qed.
 Ltac ck20 := first [ck19 | callk varlist_loop_spec varlist_loop_ext].
 Ltac call_known ::= ck20.
 
 Lemma varlist_ext p mx : G' k p -> pre p mx -> wpx (varlist_def ts R) (nQ p) p mx.
-Proof. start. unfold varlist_def. Time wp. Time Qed.
+Proof. start. unfold varlist_def. wp. Qed.
 Ltac ck21 := first [ck20 | callk varlist_spec varlist_ext].
 Ltac call_known ::= ck21.
 
 Lemma functioncall_ext p mx : G' k p -> pre p mx -> wpx (functioncall_def ts R) (nQ p) p mx.
-Proof. start. unfold functioncall_def. Time wp. Time Qed.
+Proof. start. unfold functioncall_def. wp. Qed.
 Ltac ck22 := first [ck21 | callk functioncall_spec functioncall_ext].
 Ltac call_known ::= ck22.
 
 Lemma elseif_loop_ext p mx : G' k p -> pre p mx -> wpx (elseif_loop_def ts R) (nEI p) p mx.
-Proof. start. unfold elseif_loop_def. Time wp. Time Qed.
+Proof. start. unfold elseif_loop_def. wp. Qed.
 Ltac ck23 := first [ck22 | callk elseif_loop_spec elseif_loop_ext].
 Ltac call_known ::= ck23.
 
